@@ -13,12 +13,18 @@ namespace
   const int NT = 6;   // feature templates
   const char *TYPE[NT] = {"continental plate", "oceanic plate", "mantle layer", "plume", "subducting plate", "fault"};
   // modes: which models a feature carries and with which operation
-  enum Mode { REPLACE, RDO, ADD, SUB, NOMODELS, TONLY, NMODES };
-  const char *MODEN[NMODES] = {"replace", "replace defined only", "add", "subtract", "no models", "temperature model only"};
+  // RDOZ / ADDZ: as RDO / ADD, and the composition model lists one more composition with an explicit fraction of 0
+  // ('replace defined only' then overwrites that composition with 0, 'add' leaves it as it is)
+  enum Mode { REPLACE, RDO, ADD, SUB, NOMODELS, TONLY, RDOZ, ADDZ, NMODES };
+  const char *MODEN[NMODES] = {"replace", "replace defined only", "add", "subtract", "no models", "temperature model only", "replace defined only + a composition listed with fraction 0", "add + a composition listed with fraction 0"};
   // per template: temperature value, listed compositions + fractions, grains composition
   const double TVAL[NT] = {400, 500, 600, 700, 800, 900};
   const std::vector<unsigned> COMPS[NT] = {{0}, {1}, {0,1}, {1}, {0}, {1}};
   const std::vector<double> FRACS[NT] = {{1.0}, {0.5}, {0.25,0.75}, {1.0}, {0.125}, {2.0}};
+  const unsigned ZCOMP[NT] = {1, 0, 2, 0, 1, 0};   // the composition listed with fraction 0 in the RDOZ / ADDZ modes
+  std::vector<unsigned> comps_of(int t, int m) { std::vector<unsigned> c = COMPS[t]; if (m == RDOZ || m == ADDZ) c.push_back(ZCOMP[t]); return c; }
+  std::vector<double> fracs_of(int t, int m) { std::vector<double> f = FRACS[t]; if (m == RDOZ || m == ADDZ) f.push_back(0.0); return f; }
+  bool is_add(int m) { return m == ADD || m == ADDZ; }
   const unsigned GCOMP[NT] = {0, 1, 0, 1, 0, 1};
   // exact proper rotations (quarter turns)
   const double ROT[NT][9] =
@@ -33,15 +39,15 @@ namespace
     const double s = sph ? 1.0 : 1e5;
     auto sq = [&](double x0, double x1, double y0, double y1)
     { return pts({{x0*s,y0*s},{x1*s,y0*s},{x1*s,y1*s},{x0*s,y1*s}}); };
-    const std::string op = m == RDO ? "replace defined only" : m == ADD ? "add" : m == SUB ? "subtract" : "replace";
-    const std::string top = m == ADD ? "add" : m == SUB ? "subtract" : "replace";
+    const std::string op = (m == RDO || m == RDOZ) ? "replace defined only" : is_add(m) ? "add" : m == SUB ? "subtract" : "replace";
+    const std::string top = is_add(m) ? "add" : m == SUB ? "subtract" : "replace";
     std::string models;
     if (m != NOMODELS)
       {
         models += ",\"temperature models\":[{\"model\":\"uniform\",\"temperature\":" + num(TVAL[t]) + ",\"operation\":\"" + top + "\"}]";
         if (m != TONLY)
           {
-            models += ",\"composition models\":[{\"model\":\"uniform\",\"compositions\":" + ints(COMPS[t]) + ",\"fractions\":" + nums(FRACS[t]) + ",\"operation\":\"" + op + "\"}]";
+            models += ",\"composition models\":[{\"model\":\"uniform\",\"compositions\":" + ints(comps_of(t, m)) + ",\"fractions\":" + nums(fracs_of(t, m)) + ",\"operation\":\"" + op + "\"}]";
             std::string r = "[[";
             for (int i = 0; i < 3; ++i) r += std::string(i ? "," : "") + "[" + num(ROT[t][3*i]) + "," + num(ROT[t][3*i+1]) + "," + num(ROT[t][3*i+2]) + "]";
             models += ",\"grains models\":[{\"model\":\"uniform\",\"compositions\":[" + std::to_string(GCOMP[t]) + "],\"rotation matrices\":" + r + "]],\"grain sizes\":[" + num(GSIZE[t]) + "]}]";
@@ -133,17 +139,19 @@ namespace
             lasttag = TYPE[t];
             if (t >= 4) grains_via_line_feature = true;
             if (m == NOMODELS) continue;
-            ref[0] = m == ADD ? ref[0] + TVAL[t] : m == SUB ? ref[0] - TVAL[t] : TVAL[t];
+            ref[0] = is_add(m) ? ref[0] + TVAL[t] : m == SUB ? ref[0] - TVAL[t] : TVAL[t];
             if (m == TONLY) continue;
             for (unsigned comp = 0; comp < 3; ++comp)
               {
                 bool listed = false;
-                for (size_t k = 0; k < COMPS[t].size(); ++k)
-                  if (COMPS[t][k] == comp)
+                const std::vector<unsigned> cl = comps_of(t, m);
+                const std::vector<double> fl = fracs_of(t, m);
+                for (size_t k = 0; k < cl.size(); ++k)
+                  if (cl[k] == comp)
                     {
                       listed = true;
-                      const double fr = FRACS[t][k];
-                      ref[1+comp] = m == ADD ? ref[1+comp] + fr : m == SUB ? ref[1+comp] - fr : fr;
+                      const double fr = fl[k];
+                      ref[1+comp] = is_add(m) ? ref[1+comp] + fr : m == SUB ? ref[1+comp] - fr : fr;
                     }
                 if (!listed && m == REPLACE) ref[1+comp] = 0.0;
               }
@@ -247,7 +255,7 @@ int main(int argc, char **argv)
   spec.property = "C02";
   spec.level = "exploration";
   spec.rule = "every ordered list (with repetition) of n features drawn from 6 templates (one per feature type, partly overlapping footprints) x every assignment of a mode "
-              "(replace / replace defined only / add / subtract / no models / temperature only) within the stated bound; one world per tuple, compared at 49 points with a reference fold "
+              "(replace / replace defined only / add / subtract / no models / temperature only / replace defined only resp. add with one more composition listed at fraction 0) within the stated bound; one world per tuple, compared at 49 points with a reference fold "
               "(membership per feature taken from its single-feature world); non-trivial: at least one point covered by >= 2 features; tuples distinct by construction";
   spec.assumptions = {"uniform models only, so the reference fold is bit-exact (grains painted through slabs/faults compared to 1e-12 because of the quaternion round trip)",
                       "feature membership is taken from the implementation's single-feature world on purpose (geometry is C04/C06)"
